@@ -190,15 +190,21 @@ func graphCases() []graphCase {
 		func() *jsonschema.Schema {
 			return &jsonschema.Schema{PropertyOrder: []string{"a", "a"}, Properties: map[string]*jsonschema.Schema{"a": {}}}
 		},
-		func() *jsonschema.Schema { return &jsonschema.Schema{MinLength: &neg, MaxItems: &neg, MinContains: &neg} },
+		func() *jsonschema.Schema {
+			return &jsonschema.Schema{MinLength: &neg, MaxItems: &neg, MinContains: &neg}
+		},
 		func() *jsonschema.Schema { return &jsonschema.Schema{MultipleOf: &f0} },
 		func() *jsonschema.Schema {
 			return &jsonschema.Schema{Pattern: "(", PatternProperties: map[string]*jsonschema.Schema{"[": {}, "(?P<n>": nil}}
 		},
-		func() *jsonschema.Schema { return &jsonschema.Schema{Default: json.RawMessage(`{`), Examples: []any{func() {}}} },
+		func() *jsonschema.Schema {
+			return &jsonschema.Schema{Default: json.RawMessage(`{`), Examples: []any{func() {}}}
+		},
 		func() *jsonschema.Schema { return &jsonschema.Schema{Default: json.RawMessage(``)} },
 		func() *jsonschema.Schema { return &jsonschema.Schema{Default: json.RawMessage(`nul`), Type: "integer"} },
-		func() *jsonschema.Schema { return &jsonschema.Schema{Const: new(any), Enum: []any{nil, func() {}, make(chan int)}} },
+		func() *jsonschema.Schema {
+			return &jsonschema.Schema{Const: new(any), Enum: []any{nil, func() {}, make(chan int)}}
+		},
 		func() *jsonschema.Schema { return &jsonschema.Schema{Extra: map[string]any{"type": 1, "x": func() {}}} },
 		func() *jsonschema.Schema { return &jsonschema.Schema{Vocabulary: map[string]bool{"x": true}} },
 		func() *jsonschema.Schema { return &jsonschema.Schema{MinItems: &one, Required: []string{"a", "a"}} },
